@@ -2,7 +2,7 @@
    Theorems only.  The store is generic in the element type of list options and in
    the printing/parsing functions (package net / time: environment); the
    instantiation for listen / profile / forwarder is below. *)
-From NX Require Import Bytes Config StoreFacts Forwarder Profile FwdText FwdTextFacts.
+From NX Require Import Bytes Config StoreFacts Forwarder Profile FwdText FwdTextFacts ProfText ProfTextFacts.
 Open Scope Z_scope.
 
 Section C17.
@@ -87,6 +87,17 @@ Print Assumptions C17_roundtrip_forwarders.
 (* the rule domain the text parser produces is the one the matcher of C10 works on *)
 Theorem C17_forwarder_domain : forall d, fqdn_text d = fqdn d.
 Proof. reflexivity. Qed.
+
+(* ---- the profile option at the level of text (config/profile.go newConfig / String, Model/ProfText.v): the same
+   round trip, under four stated facts about package net -- a printed prefix / hardware address parses to itself,
+   contains no '=' and no surrounding white space, and a printed hardware address is not a prefix ---- *)
+Theorem C17_profile_text : forall parse_cidr parse_mac is_iface,
+  (forall t x, parse_cidr t = Some x -> parse_cidr x = Some x /\ clean x) ->
+  (forall t m, parse_mac t = Some m -> parse_mac m = Some m /\ clean m /\ parse_cidr m = None) ->
+  forall r, prule_good parse_cidr parse_mac is_iface r ->
+    prof_text_parse parse_cidr parse_mac is_iface (prof_text_show r) = Some r.
+Proof. exact prof_text_roundtrip. Qed.
+Print Assumptions C17_profile_text.
 
 (* non-vacuity: a store holding two rules that newResolver produced is well formed *)
 Example C17_forwarders_nonvacuous :
